@@ -685,14 +685,18 @@ func (rdb *RDB) IsV2KeySyntaxUsed() bool {
 func (rdb *RDB) get(key []byte, ctx *Context) (data []byte, err error) {
 	cachedEntry, ok := ctx.cache[string(key)]
 
-	if ok {
+	// an entry written by FindClosest maps a search key to the closest smaller
+	// key and its data; it answers an exact get only if that key is the same
+	if ok && bytes.Equal(cachedEntry.key, key) {
 		data = cachedEntry.data
 	} else {
 		data, err = rdb.db.Get(rdb.readOptions, key)
 		if err != nil {
 			return nil, err
 		}
-		ctx.update(key, key, data)
+		if !ok {
+			ctx.update(key, key, data)
+		}
 	}
 
 	return data, nil
